@@ -298,3 +298,43 @@ def judge(case, impl):
 
 def compare(case, impl, model):
     return impl == model
+
+
+# ---- extraction cross-check: the same cases evaluated inside Coq by vm_compute
+from tools import xenc
+COQ_IMPORTS = 'Base.XEnc Model.Arr2D'
+XCHECK_N = 150
+_X_BIN = {'dot': 'dot', 'mul_rr': 'mul_ref_ref', 'mul_oo': 'mul_own_own', 'mul_or': 'mul_own_ref', 'mul_ro': 'mul_ref_own'}
+
+
+def _x_arr(ty, m):
+    h, w, ents = m
+    return '(mkArr %s %d%%nat %d%%nat)' % (xenc.cq_Zs(ents) if ty == 'z' else xenc.cq_floats(ents), h, w)
+
+
+def coq_term(case):
+    # crc thinning (not the stride of extraction_crosscheck: the generator is periodic in type x command)
+    if not xenc.keep(case, 120):
+        return None
+    ty, cmd, a, b, k = parse(case)
+    inst = '_ ZNum' if ty == 'z' else '_ FNum'
+    # Ok arr -> 0 :: height :: width :: len(inner) :: entries   (what the driver prints after 'ok')
+    enc = ('enc_res (fun c => Z.of_nat (height c) :: Z.of_nat (width c) :: %s (inner c))'
+           % ('enc_Zs' if ty == 'z' else 'enc_floats'))
+    A = _x_arr(ty, a)
+    if cmd == 'tr':
+        return '%s (@transpose _ %s)' % (enc, A)
+    if cmd in ('smul', 'smul_o'):
+        return '%s (@smul %s %s %s)' % (enc, inst, A, xenc.cq_Z(k) if ty == 'z' else xenc.coq_float(k) + '%float')
+    if cmd in ('sdiv', 'sdiv_o'):
+        return '%s (@sdiv %s %s %s %s)' % (enc, inst, 'true' if ty == 'z' else 'false', A,
+                                           xenc.cq_Z(k) if ty == 'z' else xenc.coq_float(k) + '%float')
+    if cmd in _X_BIN:
+        return '%s (@%s %s %s %s)' % (enc, _X_BIN[cmd], inst, A, _x_arr(ty, b))
+    return None
+
+
+def encode_result(case, model_line):
+    ty = case.line.split()[0]
+    conv = int if ty == 'z' else xenc.float_tok_bits
+    return xenc.enc_line(model_line, lambda t: [int(t[0]), int(t[1]), int(t[2])] + [conv(x) for x in t[3:]])
